@@ -240,18 +240,18 @@ class FingerprintDatabase(object):
         name : str, optional
             Name of database
         """
-        try:
-            indices, fp_names = zip(
-                *[
-                    (y, x)
-                    for x in fp_names
-                    for y in self.fp_names_to_indices[x]
-                ]
-            )
-        except KeyError:
+        fp_names = list(fp_names)
+        if any(x not in self.fp_names_to_indices for x in fp_names):
             raise ValueError(
                 "Not all provided fingerprint names are in database."
             )
+        indices, fp_names = zip(
+            *[
+                (y, x)
+                for x in fp_names
+                for y in self.fp_names_to_indices[x]
+            ]
+        )
         array = self.array[indices, :]
         props = {k: v[list(indices)] for k, v in self.props.items()}
         return FingerprintDatabase.from_array(
@@ -692,12 +692,11 @@ class FingerprintDatabase(object):
     def __getitem__(self, key):
         """Get list of fingerprints with name."""
         if isinstance(key, str):
-            try:
-                indices = self.fp_names_to_indices[key]
-            except AttributeError:
+            if key not in self.fp_names_to_indices:
                 raise KeyError(
                     "fingerprint named {} is not in the database".format(key)
                 )
+            indices = self.fp_names_to_indices[key]
             return [self._get_fprint_at_index(i) for i in indices]
         elif isinstance(key, int):
             try:
